@@ -669,11 +669,11 @@ def signature_of(clause, detail, cfg, ex):
 
 
 def run_c07(ctx, rec):
-    explore(ctx, rec, "C07", {"p_fault": 0.15, "p_cancel": 0.0, "pool_timeout": None}, 30, 4000, ["C07:"])
-    explore(ctx, rec, "C07", {"p_fault": 0.1, "p_cancel": 0.12, "pool_timeout": None, "gate_close": True, "p_conn_close": 0.4}, 60, 8000, ["C07:"])
+    explore(ctx, rec, "C07", {"p_fault": 0.15, "p_cancel": 0.0, "pool_timeout": None}, 60, 4000, ["C07:"])
+    explore(ctx, rec, "C07", {"p_fault": 0.1, "p_cancel": 0.12, "pool_timeout": None, "gate_close": True, "p_conn_close": 0.4}, 120, 8000, ["C07:"])
     explore(ctx, rec, "C07", {"p_fault": 0.05, "p_cancel": 0.05, "pool_timeout": 4.0, "gate_close": True, "p_conn_close": 0.4,
-                              "max_connections": 1}, 60, 8000, ["C07:"])
+                              "max_connections": 1}, 120, 8000, ["C07:"])
     # HTTP/2 enabled: requests share a connection (also one that is still being established - directly, through a tunnel or SOCKS)
-    explore(ctx, rec, "C07", {"p_fault": 0.0, "p_cancel": 0.0, "http2": True, "p_conn_close": 0.0, "pool_timeout": None}, 30, 3000, ["C07:"])
+    explore(ctx, rec, "C07", {"p_fault": 0.0, "p_cancel": 0.0, "http2": True, "p_conn_close": 0.0, "pool_timeout": None}, 60, 3000, ["C07:"])
     explore(ctx, rec, "C07", {"p_fault": 0.05, "p_cancel": 0.05, "http2": True, "p_conn_close": 0.0, "pool_timeout": None,
-                              "max_connections": 1}, 30, 3000, ["C07:"])
+                              "max_connections": 1}, 60, 3000, ["C07:"])
